@@ -277,3 +277,70 @@ Section MapLoops.
     - congruence.
   Qed.
 End MapLoops.
+
+(* ------------------------------------------------------------------ collect keys, then sort *)
+Section TotalSort.
+  Variable A : Type.
+  Variable ltb : A -> A -> bool.
+  Hypothesis ltb_irrefl : forall a, ltb a a = false.
+  Hypothesis ltb_trans : forall a b c, ltb a b = true -> ltb b c = true -> ltb a c = true.
+  Hypothesis ltb_total : forall a b, ltb a b = false -> ltb b a = false -> a = b.
+
+  Lemma insert_total_sorted x l :
+    ~ In x l -> StronglySorted (fun a b => ltb a b = true) l ->
+    StronglySorted (fun a b => ltb a b = true) (insert ltb x l).
+  Proof.
+    induction l as [|y ys IH]; intros Hn S; simpl.
+    - constructor; constructor.
+    - inversion S as [|? ? S' F]; subst. rewrite Forall_forall in F.
+      destruct (ltb y x) eqn:E.
+      + constructor.
+        * apply IH; auto. intro H. apply Hn. right. exact H.
+        * rewrite Forall_forall. intros z Hz.
+          apply (Permutation_in _ (Permutation_sym (insert_perm ltb x ys))) in Hz.
+          destruct Hz as [<-|Hz]; auto.
+      + assert (Hxy : ltb x y = true).
+        { destruct (ltb x y) eqn:E2; auto. exfalso. apply Hn. left. symmetry. apply ltb_total; auto. }
+        constructor; [exact S|]. rewrite Forall_forall. intros z [<-|Hz]; auto.
+        eapply ltb_trans; eauto.
+  Qed.
+
+  Lemma ssort_total_sorted l : NoDup l -> StronglySorted (fun a b => ltb a b = true) (ssort ltb l).
+  Proof.
+    induction l as [|x xs IH]; intro ND; simpl; [constructor|].
+    inversion ND; subst. apply insert_total_sorted; auto.
+    intro H. apply (Permutation_in _ (Permutation_sym (ssort_perm ltb xs))) in H. contradiction.
+  Qed.
+
+  (* the keys of a Go map are distinct: whatever order the loop visits them in, collecting them and
+     sorting with a total order gives one list *)
+  Theorem collect_then_sort_order_insensitive l l' :
+    NoDup l -> Permutation l l' -> ssort ltb l = ssort ltb l'.
+  Proof.
+    intros ND P. apply (sorted_perm_unique (fun a b => ltb a b = true)).
+    - intros a b H1 H2. pose proof (ltb_trans _ _ _ H1 H2) as H. rewrite ltb_irrefl in H. discriminate.
+    - apply ssort_total_sorted; auto.
+    - apply ssort_total_sorted. eapply Permutation_NoDup; eauto.
+    - eapply Permutation_trans; [apply Permutation_sym; apply ssort_perm|].
+      eapply Permutation_trans; [exact P | apply ssort_perm].
+  Qed.
+End TotalSort.
+
+(* ------------------------------------------------------------------ chroma's matchRules depends on the clock *)
+Theorem match_rules_no_timeouts_thm {R T} (m : R -> option T) (t1 t2 : nat -> bool) rules :
+  (forall i, t1 i = false) -> (forall i, t2 i = false) ->
+  forall i, match_rules m t1 i rules = match_rules m t2 i rules.
+Proof.
+  intros H1 H2. induction rules as [|r rs IH]; intro i; simpl; auto.
+  destruct (m r); [rewrite H1, H2; reflexivity | apply IH].
+Qed.
+
+(* two rules match at the position (the specific one first, the catch-all second, as for `range` in
+   chroma's Python lexer: Name.Builtin before Name): a timeout on the first changes the token *)
+Theorem match_rules_time_dependent_thm :
+  exists (rules : list nat) (m : nat -> option nat) (t1 t2 : nat -> bool),
+    match_rules m t1 0 rules <> match_rules m t2 0 rules.
+Proof.
+  exists [1; 2]%nat, (fun r => Some r), (fun _ => false), (fun i => Nat.eqb i 0).
+  vm_compute. discriminate.
+Qed.
